@@ -730,7 +730,9 @@ def rules(tier):
             # C11-eb: _find_cp memoised without bottom_level - an exact-level lookup answered from a range lookup
             ('C11.R21', _shared_rule('c10', 'r4_exact_last_transition')),
             # C11-eb: _find_cp memo without bottom_level
-            ('C11.R22', _shared_rule('c10', 'r25_cracker_plumbing'))]
+            ('C11.R22', _shared_rule('c10', 'r25_cracker_plumbing')),
+            # "the per-level password counts the trainer saves": one per password, under its level
+            ('C11.R23', _shared_rule('c18', 'r22_level_tally'))]
 
 
 META = {
